@@ -10,6 +10,7 @@ mod c05;
 mod c06;
 mod c07;
 mod c08;
+mod c08w;
 mod c17;
 mod c17f;
 pub mod c18;
@@ -49,6 +50,7 @@ pub fn run(engine: &str, toks: Vec<Tok>) -> Vec<Tok> {
         "c07_read_error" => c07::read_error(toks),
         "c07_front" => c07::front(toks),
         "c08_run" => c08::run(toks),
+        "c08_wire" => c08w::wire(toks),
         "c14_session" => c14s::run(toks),
         "c14_establish" => c14s::establish(toks),
         "c14_front" => c14s::front(toks),
